@@ -397,9 +397,17 @@ def _bfs_task(task):
     seen = {canon(build([])): ()}
     frontier = [()]
     fps = set()
+    t_end = T.clock.real() + (240 if tier == "quick" else 1200)
     while frontier:
         nxt = []
         for hist in frontier:
+            if T.clock.real() > t_end or (len(seen) > 2000 and len(fps) >= len(seen) - 1):
+                # only seen when process-wide state never returns to an earlier value (e.g. a call counter): no two histories
+                # merge and the search degenerates into the enumeration of all interleavings, which the interleaving tasks do anyway
+                acc.cap("bfs %s: stopped (time budget, or no two histories ever share a heap fingerprint) after %d states (%d distinct heap fingerprints); histories up to length %d covered" %
+                        (name, len(seen), len(fps), len(hist)))
+                frontier, nxt = [], []
+                break
             ss = build(hist)
             for i in H.enabled(ss):
                 h2 = hist + (i,)
